@@ -724,7 +724,36 @@ pub mod locks {
     /// the task in the simulator (never in the OS), so the baton scheduler stays in control.
     #[derive(Default)]
     pub struct Mutex<T: ?Sized> {
+        key: ObjKey,
         inner: ::std::sync::Mutex<T>,
+    }
+
+    /// Identity of a lock / condition variable for the simulator. It used to be the object's
+    /// address; but an address is reused when an object is freed and another allocated, and
+    /// whether that happens depends on the allocator and on the other simulations running in the
+    /// process — the event log (which names locks by first-use index) then differed between two
+    /// runs of one seed (found by the determinism re-check on rewrites that allocate a fresh
+    /// `Arc<Mutex<..>>` per Eb/N0 point). The key is drawn once per object from a process-wide
+    /// counter; it is only ever used as a map key, never logged.
+    #[derive(Debug, Default)]
+    pub struct ObjKey(::std::sync::atomic::AtomicUsize);
+    static NEXT_KEY: ::std::sync::atomic::AtomicUsize = ::std::sync::atomic::AtomicUsize::new(1);
+    impl ObjKey {
+        pub const fn new() -> ObjKey {
+            ObjKey(::std::sync::atomic::AtomicUsize::new(0))
+        }
+        fn get(&self) -> usize {
+            use ::std::sync::atomic::Ordering::SeqCst;
+            let k = self.0.load(SeqCst);
+            if k != 0 {
+                return k;
+            }
+            let fresh = NEXT_KEY.fetch_add(1, SeqCst);
+            match self.0.compare_exchange(0, fresh, SeqCst, SeqCst) {
+                Ok(_) => fresh,
+                Err(existing) => existing,
+            }
+        }
     }
 
     pub struct MutexGuard<'a, T: ?Sized + 'a> {
@@ -736,7 +765,7 @@ pub mod locks {
 
     impl<T> Mutex<T> {
         pub const fn new(t: T) -> Mutex<T> {
-            Mutex { inner: ::std::sync::Mutex::new(t) }
+            Mutex { key: ObjKey::new(), inner: ::std::sync::Mutex::new(t) }
         }
         pub fn into_inner(self) -> LockResult<T> {
             self.inner.into_inner()
@@ -745,7 +774,7 @@ pub mod locks {
 
     impl<T: ?Sized> Mutex<T> {
         fn addr(&self) -> usize {
-            self as *const Mutex<T> as *const u8 as usize
+            self.key.get()
         }
         fn wrap<'a>(&'a self, r: LockResult<::std::sync::MutexGuard<'a, T>>, sim: Option<(Arc<Shared>, usize)>) -> LockResult<MutexGuard<'a, T>> {
             match r {
@@ -833,6 +862,7 @@ pub mod locks {
     /// `std::sync::RwLock`, same approach (no writer preference).
     #[derive(Default)]
     pub struct RwLock<T: ?Sized> {
+        key: ObjKey,
         inner: ::std::sync::RwLock<T>,
     }
     pub struct RwLockReadGuard<'a, T: ?Sized + 'a> {
@@ -845,7 +875,7 @@ pub mod locks {
     }
     impl<T> RwLock<T> {
         pub const fn new(t: T) -> RwLock<T> {
-            RwLock { inner: ::std::sync::RwLock::new(t) }
+            RwLock { key: ObjKey::new(), inner: ::std::sync::RwLock::new(t) }
         }
         pub fn into_inner(self) -> LockResult<T> {
             self.inner.into_inner()
@@ -853,7 +883,7 @@ pub mod locks {
     }
     impl<T: ?Sized> RwLock<T> {
         fn addr(&self) -> usize {
-            self as *const RwLock<T> as *const u8 as usize
+            self.key.get()
         }
         pub fn read(&self) -> LockResult<RwLockReadGuard<'_, T>> {
             let sim = current().and_then(|(sh, me)| sim_lock(&sh, me, self.addr(), true, false).unwrap_or(None).map(|i| (sh, i)));
@@ -919,8 +949,7 @@ pub mod locks {
     #[derive(Debug, Default)]
     pub struct Condvar {
         inner: ::std::sync::Condvar,
-        // gives the condvar an address of its own even though std's is zero-sized on some targets
-        _pad: u8,
+        key: ObjKey,
     }
 
     pub struct WaitTimeoutResult(bool);
@@ -932,10 +961,10 @@ pub mod locks {
 
     impl Condvar {
         pub const fn new() -> Condvar {
-            Condvar { inner: ::std::sync::Condvar::new(), _pad: 0 }
+            Condvar { inner: ::std::sync::Condvar::new(), key: ObjKey::new() }
         }
         fn addr(&self) -> usize {
-            self as *const Condvar as usize
+            self.key.get()
         }
         fn sim_wait<'a, T>(&self, mut guard: MutexGuard<'a, T>, timeout: Option<Duration>) -> (MutexGuard<'a, T>, bool) {
             let (sh, id) = guard.sim.clone().expect("dstsim: Condvar::wait with a guard taken outside the simulation");
@@ -1122,7 +1151,7 @@ pub mod chan {
 
     fn sim_pair<T>(cap: Option<usize>) -> Option<(SimTx<T>, SimRx<T>)> {
         let (sh, me) = current()?;
-        let id = chan_new(&sh, me, cap);
+        let id = chan_new(&sh, me, cap, ::std::mem::size_of::<T>());
         let c = Arc::new(SimChan { sh, id, cap, q: Mutex::new(VecDeque::new()) });
         Some((SimTx(c.clone()), SimRx(c)))
     }
